@@ -614,4 +614,6 @@ func TestC10(t *testing.T) {
 	h.Run(c, "history", c.N(12000, 120000), genCase, oracle)
 	c.Rule("nilmap: a nil map (zero element of make([]map[K]V, 2), in a variable or still in the slice; K/V string/int64, int64/string, interface/interface) goes through 1-7 operations: stores with an ill-typed value / ill-typed key / unhashable key (must fail), reads, len, delete (also with an ill-typed key), for-in, successful stores (a store into a nil map may create it or fail); after every step the map is nil exactly when no store succeeded and holds exactly the stored entries; non-trivial = at least one failing operation")
 	h.Run(c, "nilmap", c.N(6000, 60000), genNilMap, oracleNilMap)
+	c.Rule("reentrant: the index or a bound of an index / 2- / 3-index slice expression on a slot (element of a [][]int64, struct field, element of an untyped list, plain variable) is computed by a function that replaces that slot on the way (shrinks it in place, swaps in a fresh shorter / empty / longer list); the result must be what Go's operation gives on the container as it was or on the replaced one, or an error - never a Go panic, never other elements; all cases non-trivial")
+	h.Run(c, "reentrant", c.N(6000, 60000), genReentrant, oracleReentrant)
 }
